@@ -6,6 +6,13 @@ A history is a tuple of ops over three live sets (indices 0..2).  Model-level ar
 side how to spell it (object, string, int, IPAddress, IPGlob ...), so every argument form of
 the property is exercised on the real code while the model sees the canonical argument.
 
+Raw histories (`run_impl(ops, raw=True)`, driver op `ipset_raw`): the arguments of add / rem / list
+constructors / list updates / queries go to the model as the caller wrote them (`S:<hex>` strings,
+`I:<int>` ints, `A:` addresses, `N:` networks, `R:` ranges) and the model does the
+`IPNetwork(x)` / `IPAddress(x)` coercion itself (Model/Coerce.lean).  Extra forms there: 'maskstr'
+('addr/netmask'), 'hoststr' ('addr/hostmask'), 'bad' / 'badint' (an argument no constructor accepts: the
+step must raise and leave the set as it was), and bare ints as query arguments (`int in ipset`).
+
 ops:  ('new', i, 'none') ('new', i, 'net', arg) ('new', i, 'rng', arg) ('new', i, 'set', j)
       ('new', i, 'list', (arg...))  ('add', i, arg) ('rem', i, arg) ('upd', i, 'set', j)
       ('upd', i, 'arg', arg) ('upd', i, 'list', (arg...)) ('clear', i) ('pop', i) ('compact', i)
@@ -36,7 +43,7 @@ def _hot_windows(rng):
     return wins
 
 
-def _net_arg(rng, wins, allow6=True):
+def _net_arg(rng, wins, allow6=True, raw=False):
     ver = 6 if (allow6 and rng.random() < 0.3) else 4
     w = W[ver]
     r = rng.random()
@@ -51,6 +58,10 @@ def _net_arg(rng, wins, allow6=True):
         form = rng.choice(['net', 'str', 'addr', 'addrstr', 'int'])
         if form == 'int' and ver == 6 and val <= 0xffffffff:
             form = 'addr'                           # a small int would be read as IPv4
+    elif raw and rng.random() < 0.25:
+        form = 'hoststr' if (0 < p < w and rng.random() < 0.4) else 'maskstr'
+    if raw and rng.random() < 0.02:
+        form = rng.choice(['bad', 'bad', 'badint'])
     return ('N', ver, val, p, form)
 
 
@@ -79,14 +90,17 @@ def _rng_arg(rng, wins):
     return ('R', ver, lo, hi, form)
 
 
-def _q_arg(rng, wins):
+def _q_arg(rng, wins, raw=False):
     # membership is defined for addresses and networks (objects or strings), not bare ints
-    a = _net_arg(rng, wins)
-    return a[:4] + ('addr',) if a[4] == 'int' else a
+    # (raw histories keep the int: `int in ipset` goes through IPNetwork(int), the model says what happens)
+    a = _net_arg(rng, wins, raw=raw)
+    if a[4] in ('bad', 'badint'):
+        return a[:4] + ('str',)
+    return a[:4] + ('addr',) if a[4] == 'int' and not raw else a
 
 
-def _arg(rng, wins):
-    return _rng_arg(rng, wins) if rng.random() < 0.25 else _net_arg(rng, wins)
+def _arg(rng, wins, raw=False):
+    return _rng_arg(rng, wins) if rng.random() < 0.25 else _net_arg(rng, wins, raw=raw)
 
 
 def gen_punctured(rng):
@@ -133,7 +147,7 @@ def shuffle4(rng):
     return l[:rng.randrange(1, 5)]
 
 
-def gen_history(rng, tier):
+def gen_history(rng, tier, raw=False):
     if rng.random() < 0.25:
         return gen_punctured(rng)
     wins = _hot_windows(rng)
@@ -142,35 +156,35 @@ def gen_history(rng, tier):
     # start with some content in sets 0 and 1 so that operators have something to chew on
     for i in (0, 1):
         if rng.random() < 0.8:
-            ops.append(('new', i, 'list', tuple(_arg(rng, wins) for _ in range(rng.randrange(0, 5)))))
+            ops.append(('new', i, 'list', tuple(_arg(rng, wins, raw) for _ in range(rng.randrange(0, 5)))))
     for _ in range(n):
         i = rng.randrange(3)
         j = rng.randrange(3)
         r = rng.random()
         if r < 0.22:
-            ops.append(('add', i, _arg(rng, wins)))
+            ops.append(('add', i, _arg(rng, wins, raw)))
         elif r < 0.40:
-            ops.append(('rem', i, _arg(rng, wins)))
+            ops.append(('rem', i, _arg(rng, wins, raw)))
         elif r < 0.47:
             k = rng.random()
             if k < 0.35:
                 ops.append(('upd', i, 'set', j))
             elif k < 0.5:
-                ops.append(('upd', i, 'arg', _arg(rng, wins)))
+                ops.append(('upd', i, 'arg', _arg(rng, wins, raw)))
             else:
-                ops.append(('upd', i, 'list', tuple(_arg(rng, wins) for _ in range(rng.randrange(0, 4)))))
+                ops.append(('upd', i, 'list', tuple(_arg(rng, wins, raw) for _ in range(rng.randrange(0, 4)))))
         elif r < 0.53:
             k = rng.random()
             if k < 0.2:
                 ops.append(('new', i, 'none'))
             elif k < 0.4:
-                ops.append(('new', i, 'net', _net_arg(rng, wins)))
+                ops.append(('new', i, 'net', _net_arg(rng, wins, raw=raw)))
             elif k < 0.55:
                 ops.append(('new', i, 'rng', _rng_arg(rng, wins)))
             elif k < 0.7:
                 ops.append(('new', i, 'set', j))
             else:
-                ops.append(('new', i, 'list', tuple(_arg(rng, wins) for _ in range(rng.randrange(0, 5)))))
+                ops.append(('new', i, 'list', tuple(_arg(rng, wins, raw) for _ in range(rng.randrange(0, 5)))))
         elif r < 0.56:
             ops.append(('clear', i))
         elif r < 0.62:
@@ -182,9 +196,9 @@ def gen_history(rng, tier):
         elif r < 0.86:
             ops.append(('bin', rng.randrange(3), i, j, rng.choice(['or', 'and', 'sub', 'xor'])))
         else:
-            ops.append(('q', i, j, _q_arg(rng, wins)))
+            ops.append(('q', i, j, _q_arg(rng, wins, raw)))
     # always end with a query so every history observes the algebra
-    ops.append(('q', rng.randrange(3), rng.randrange(3), _q_arg(rng, wins)))
+    ops.append(('q', rng.randrange(3), rng.randrange(3), _q_arg(rng, wins, raw)))
     return tuple(ops)
 
 
@@ -194,6 +208,58 @@ def _tok(a):
     if a[0] == 'N':
         return 'N:%d:%d:%d' % (a[1], a[2], a[3])
     return 'R:%d:%d:%d' % (a[1], a[2], a[3])
+
+
+def is_bad(a):
+    """an argument no constructor accepts"""
+    return a[0] == 'N' and a[4] in ('bad', 'badint')
+
+
+def op_raises(op):
+    """does the step carry an argument that must be refused (the step then changes nothing)"""
+    k = op[0]
+    if k in ('add', 'rem'):
+        return is_bad(op[2])
+    if k in ('new', 'upd') and op[2] in ('net', 'arg'):
+        return is_bad(op[3])
+    if k in ('new', 'upd') and op[2] == 'list':
+        return any(is_bad(a) for a in op[3])
+    return False
+
+
+def _is_obj(a):
+    """forms that reach the API as IPNetwork / IPRange objects"""
+    return a[0] == 'R' or a[4] == 'net'
+
+
+def _raw_tok(a):
+    """the argument as the caller wrote it (coercion left to the model)"""
+    if a[0] == 'R':
+        return 'R:%d:%d:%d' % (a[1], a[2], a[3])
+    _, ver, val, p, form = a
+    if form == 'net':
+        return 'N:%d:%d:%d' % (ver, val, p)
+    if form == 'addr':
+        return 'A:%d:%d' % (ver, val)
+    x = build_arg(a)
+    if isinstance(x, int):
+        return 'I:%d' % x
+    return 'S:' + x.encode('utf-8').hex()
+
+
+def raw_op_token(op, pop_choice=None):
+    """token of op `ipset_raw`; a single string/int/address handed to IPSet(...) / update(...) is wrapped
+    in a list by the harness (build side does the same), so it is a one-element list op"""
+    k = op[0]
+    if k in ('add', 'rem'):
+        return '%s,%d,%s' % (k, op[1], _raw_tok(op[2]))
+    if k in ('new', 'upd') and op[2] == 'list':
+        return ','.join([k, str(op[1]), 'list'] + [_raw_tok(a) for a in op[3]])
+    if k in ('new', 'upd') and op[2] in ('net', 'arg') and not _is_obj(op[3]):
+        return ','.join([k, str(op[1]), 'list', _raw_tok(op[3])])
+    if k == 'q':
+        return 'q,%d,%d,%s' % (op[1], op[2], _raw_tok(op[3]))
+    return op_token(op, pop_choice)
 
 
 def op_token(op, pop_choice=None):
@@ -251,6 +317,18 @@ def build_arg(a):
             return _addr_text(ver, val)
         if form == 'int':
             return val
+        w = W[ver]
+        host = (1 << (w - p)) - 1
+        if form == 'maskstr':
+            return '%s/%s' % (_addr_text(ver, val), _addr_text(ver, ((1 << w) - 1) ^ host))
+        if form == 'hoststr':
+            return '%s/%s' % (_addr_text(ver, val), _addr_text(ver, host))
+        if form == 'bad':
+            t = _addr_text(ver, val)
+            return ['%s/%d' % (t, w + 1 + p), t + '/', t + ('.1' if ver == 4 else ':x'), '', 'bad', t + '//%d' % p,
+                    '%s/%s' % (t, _addr_text(ver, (1 << (w - 1)) - 2))][(val + p) % 7]
+        if form == 'badint':
+            return [(1 << 128) + val, -1 - val][(val + p) % 2]
         raise ValueError(form)
     _, ver, lo, hi, form = a
     if form == 'range':
@@ -270,7 +348,7 @@ def _err(e):
     return '!' + errname(e)
 
 
-def query_obs(a, b, n):
+def query_obs(a, b, n, raw=False):
     from netaddr import IPNetwork
     try:
         ln = str(len(a))
@@ -290,13 +368,23 @@ def query_obs(a, b, n):
         it = plist('%d:%d' % (ip.version, int(ip)) for ip in a)
     else:
         it = '-'
+    if raw:
+        try:
+            isin = tf(n in a)
+        except Exception as e:
+            isin = _err(e)
+    else:
+        isin = tf(n in a)
     return ' '.join([tf(a == b), tf(a.issubset(b)), tf(a.issuperset(b)), tf(a < b), tf(a > b), tf(a.isdisjoint(b)),
-                     str(a.size), ln, contig, ipr, iprs, tf(n in a), it])
+                     str(a.size), ln, contig, ipr, iprs, isin, it])
 
 
-def run_impl(ops):
+def run_impl(ops, raw=False):
     """replay on real IPSet objects; returns (list of observation strings, driver line, extras)
-    extras: per op a dict with repr-level observations for the C06 oracle"""
+    extras: per op a dict with repr-level observations for the C06 oracle.
+    raw: the driver line is an `ipset_raw` history (arguments uncoerced) and a raising step is
+    observed as `!<error class>` (the model says which); the set it was aimed at stays as it was"""
+    op_token = raw_op_token if raw else globals()['op_token']
     import netaddr
     from netaddr import IPSet, IPNetwork
     sets = [IPSet(), IPSet(), IPSet()]
@@ -385,7 +473,7 @@ def run_impl(ops):
             elif k == 'q':
                 n = build_arg(op[3])
                 toks.append(op_token(op))
-                obs.append(query_obs(sets[op[1]], sets[op[2]], n))
+                obs.append(query_obs(sets[op[1]], sets[op[2]], n, raw))
                 extras.append(extra)
                 continue
             else:
@@ -397,9 +485,9 @@ def run_impl(ops):
             obs.append(show_set(s))
         except Exception as e:      # no modelled op raises on valid arguments
             toks.append(op_token(op, pop_choice))
-            obs.append('!exc:' + errname(e))
+            obs.append(('!' if raw else '!exc:') + errname(e))
         extras.append(extra)
-    return obs, 'ipset ' + ';'.join(toks), extras
+    return obs, ('ipset_raw ' if raw else 'ipset ') + ';'.join(toks), extras
 
 
 # ---------------------------------------------------------------- independent reference
@@ -519,6 +607,10 @@ def show_ref(r):
     return plist('%d:%d/%d' % c for c in r.cidrs())
 
 
+RAISES = '!raises'          # expected observation of a step that carries an unacceptable argument
+ANY = '*'                   # a query column the reference leaves open
+
+
 def ref_query(a, b, narg):
     ver, lo, hi = arg_ivs(narg)
     n = RefSet()
@@ -541,7 +633,8 @@ def ref_query(a, b, narg):
     else:
         it = '-'
     return ' '.join([tf(a == b), tf(sub), tf(sup), tf(sub and sz < b.size()), tf(sup and sz > b.size()),
-                     tf((a & b).size() == 0), str(sz), ln, tf(contig), ipr, iprs, tf((n - a).size() == 0), it])
+                     tf((a & b).size() == 0), str(sz), ln, tf(contig), ipr, iprs,
+                     ANY if narg[4:5] == ('int',) else tf((n - a).size() == 0), it])
 
 
 def run_ref(ops, impl_line):
@@ -553,7 +646,9 @@ def run_ref(ops, impl_line):
     out = []
     for op, tok in zip(ops, toks):
         k = op[0]
-        if k == 'new':
+        if op_raises(op):
+            out.append(RAISES)          # a refused operation is not part of the history
+        elif k == 'new':
             i = op[1]
             if op[2] == 'none':
                 sets[i] = RefSet()
